@@ -3,7 +3,7 @@ panics.  Every model used in a run is listed in the evidence (trusted base), and
 guards them."""
 import re
 import z3
-from .interp import (Sym, Agg, VecObj, Ref, SliceRef, IterObj, Panic, Unsupported, UNIT, mk_option, copyval)
+from .interp import (Sym, Agg, VecObj, Ref, SliceRef, IterObj, SymStr, Panic, Unsupported, UNIT, mk_option, copyval)
 
 def deref(x):
     return x.get() if x.__class__ is Ref else x
@@ -81,6 +81,12 @@ def it_next(m, it):
         if it.b is not None:
             o = it.b; it.b = None; return o
         return it_next(m, it.src)
+    if k == 'sym_char_indices':
+        s = it.src
+        if it.a >= len(s.chars): return mk_option(None)
+        k0 = it.a; it.a += 1
+        off = s.offset(k0)
+        return mk_option(Agg('tuple', None, [off if isinstance(off, int) else Sym(off), Sym(s.chars[k0])]))
     if k == 'chars':
         s = it.src
         if it.a >= len(s): return mk_option(None)
@@ -419,6 +425,8 @@ MODELS = {
     'slice::last': lambda m, a, r: (lambda s: mk_option(Ref(s.items, s.hi - 1) if s.hi > s.lo else None))(as_slice(a[0])),
     'slice::first': lambda m, a, r: (lambda s: mk_option(Ref(s.items, s.lo) if s.hi > s.lo else None))(as_slice(a[0])),
     'str::len': lambda m, a, r: len(deref(a[0]).encode()),
+    'methods::len_utf8': lambda m, a, r: Sym(z3.simplify(SymStr.len_utf8(a[0].e))) if a[0].__class__ is Sym else len(chr(a[0]).encode()),
+    'str::char_indices': lambda m, a, r: IterObj('sym_char_indices', deref(a[0]), 0) if deref(a[0]).__class__ is SymStr else IterObj('char_indices_concrete', deref(a[0]), 0),
     'str::is_empty': lambda m, a, r: len(deref(a[0])) == 0,
     'num::to_le_bytes': lambda m, a, r: Agg('array', None, [(a[0] >> (8 * i)) & 255 for i in range(8)]),
     'num::from_le_bytes': lambda m, a, r: sum(b << (8 * i) for i, b in enumerate(a[0].f)),
